@@ -145,8 +145,11 @@ func genKeepAlive(r *Rng, prop string) *Scenario {
 		cfg.KAPings = append(cfg.KAPings, KAPing{Kind: "answer", DelayUs: u*b + r.between(1, 20)*u/10 + u/30})
 	case 3:
 		if b > a {
-			// in time, but slower than the interval
-			cfg.KAPings = append(cfg.KAPings, KAPing{Kind: "answer", DelayUs: u*a + r.between(0, (b-a)*10-1)*u/10 + u/30})
+			// in time, but slower than the interval - one to three times in a row (a
+			// buffered tick then starts the next ping late)
+			for k := 0; k < int(r.between(1, 3)); k++ {
+				cfg.KAPings = append(cfg.KAPings, KAPing{Kind: "answer", DelayUs: u*a + r.between(0, (b-a)*10-1)*u/10 + u/30})
+			}
 			cfg.KAPings = append(cfg.KAPings, KAPing{Kind: "answer", DelayUs: inTime()})
 		}
 	case 4:
